@@ -66,6 +66,18 @@ impl Rng {
         bytes[8] = (bytes[8] & 0x3f) | 0x80;
         uuid::Uuid::from_bytes(bytes)
     }
+    /// any 128-bit value as a uuid (arbitrary version / variant nibbles; still a well-formed id)
+    pub fn uuid_any(&mut self) -> uuid::Uuid {
+        let a = self.next_u64();
+        let b = self.next_u64();
+        let mut bytes = [0u8; 16];
+        bytes[..8].copy_from_slice(&a.to_le_bytes());
+        bytes[8..].copy_from_slice(&b.to_le_bytes());
+        if bytes == [0u8; 16] {
+            bytes[0] = 1;
+        }
+        uuid::Uuid::from_bytes(bytes)
+    }
     pub fn shuffle<T>(&mut self, xs: &mut [T]) {
         for i in (1..xs.len()).rev() {
             let j = self.usize(i + 1);
